@@ -260,3 +260,39 @@ type Keeper struct {
 
 func (k *Keeper) BadMemWrite(key string, v int)    { k.cache[key] = v }
 func (k *Keeper) GoodStoreWrite(key string, v int) { k.store.Set(key, v) }
+
+// ---- StoresOnlyFields / ReturnOnlyUnder
+type Asset struct {
+	Weight int
+	Amount int
+}
+
+type Pool struct{ Assets []Asset }
+
+func (p *Pool) GoodReweigh(ws []Asset) {
+	for i := range p.Assets {
+		p.Assets[i].Weight = ws[i].Weight
+	}
+}
+
+func (p *Pool) BadReweigh(ws []Asset) {
+	for i := range p.Assets {
+		p.Assets[i] = ws[i]
+	}
+}
+
+func GoodEmpty(gross, net int) bool {
+	empty := false
+	if gross == 0 && net == 0 {
+		empty = true
+	}
+	return empty
+}
+
+func BadEmpty(gross, net, delta int) bool {
+	empty := false
+	if delta < 0 && net == 0 {
+		empty = true
+	}
+	return empty
+}
